@@ -247,9 +247,11 @@ impl Node {
                 let id = ctx.fresh_msg();
                 let m = Msg::new(&ctx, id, kind, msg.ttl - 1, child_salt(msg.salt, self.idx, op_idx));
                 ctx.log(Ev::SendBegin { actor, port: 1000 + port as u16, msg: id, kind, query: true, salt: m.salt, ttl: m.ttl });
+                let take = self.spec().reply_take.map(|t| t as usize).unwrap_or(usize::MAX);
                 let replies: Vec<(u16, u64, u32, u32)> = self.reqs[port as usize]
                     .send(m)
                     .await
+                    .take(take)
                     .map(|r| (r.replier, r.msg, r.via, r.rvia))
                     .collect();
                 ctx.log(Ev::SendEnd { actor, port: 1000 + port as u16, msg: id, replies });
